@@ -100,4 +100,38 @@ structure WF (s : Server) : Prop where
   fin : ∀ k f, getK k s.final = some f → WFFin f
   disj : ∀ k, (getK k s.final).isSome → getK k s.incoming = none
 
+
+/-! ### the specification's transition relation -/
+
+/-- well-formed operation: a lease record is 72 bytes (`struct.pack(">L32s32sL", …)`) -/
+def OpOk : Op → Prop
+  | .alloc _ _ _ rec _ _ => rec.length = 72
+  | _ => True
+
+/-- One step of the specification "map (SI, shnum) → write-once byte array with an in-progress
+    flag".  Handles (`wid`) are resolved to their key through the concrete writer table `s`.
+    Allocation is nondeterministic (the spec does not know about disk space): any set of absent
+    requested shares may start. A timeout step may drop any uploads in progress. -/
+def SpecStep (s : Server) (a : Spec) (op : Op) (a' : Spec) : Prop :=
+  match op with
+  | .alloc si shs size _ _ _ =>
+    ∀ k, a' k = a k ∨ (k.1 = si ∧ k.2 ∈ shs ∧ a k = .absent ∧
+                        a' k = .inProgress size (List.replicate size none))
+  | .write wid off data =>
+    match findWid wid s.incoming with
+    | none => ∀ k, a' k = a k
+    | some e => ∀ k, a' k = if k = e.1 then specWriteShare (a e.1) off data else a k
+  | .close wid =>
+    match findWid wid s.incoming with
+    | none => ∀ k, a' k = a k
+    | some e => ∀ k, a' k = if k = e.1 then specClose (a e.1) else a k
+  | .abort wid =>
+    match findWid wid s.incoming with
+    | none => ∀ k, a' k = a k
+    | some e => ∀ k, a' k = if k = e.1 then .absent else a k
+  | .advance _ =>
+    ∀ k, a' k = a k ∨ (∃ size cells, a k = .inProgress size cells ∧ a' k = .absent)
+  | .read _ _ _ => ∀ k, a' k = a k
+  | .list _ => ∀ k, a' k = a k
+
 end Tahoe.Storage.Imm
